@@ -1,4 +1,4 @@
-\* verification flow: node 1 verifies attestation 1 of node 2 (2 bit-pairs), honesty checks, duplicates, losses, time-outs
+\* CONTROL: the owner sends its attestation although verify_request_callback said no
 SPECIFICATION Spec
 CONSTANTS
  Nodes = {1, 2} Adv = {} Requesters = {} Verifiers = {1}
@@ -6,7 +6,7 @@ CONSTANTS
  MaxReq = 0 MaxVer = 1 MaxHon = 1 MaxDup = 1 MaxDrop = 1 MaxAdv = 0 MaxTimeouts = 1 MaxTicks = 0
  AdvKinds = {"junk", "data", "resp", "chal"} AdvResps = {0, 1, 2, 3}
  TickSteps = {}
- OnceOnly = TRUE CheckPeer = TRUE CheckHash = TRUE AskConsent = TRUE
+ OnceOnly = TRUE CheckPeer = TRUE CheckHash = TRUE AskConsent = FALSE
 INVARIANT StoredIntact
 INVARIANT ChunkIsolation
 INVARIANT VerifyOnce
